@@ -144,6 +144,35 @@ theorem step_not (hop : (decode w).op = 22) (hb : (decode w).b < p.numRegs) : st
 theorem hyg_not (hop : (decode w).op = 22) (ha : (decode w).a < p.numRegs) (hb : (decode w).b < p.numRegs) : hyg p pc = true := by
   simp only [hyg, hw, hop, ha, hb, and_self, decide_true]
 
+theorem step_arith (hop : 15 ≤ (decode w).op ∧ (decode w).op ≤ 20)
+    (hb : RKGood p (decode w).b) (hc : RKGood p (decode w).c) : step p pc = .ok [pc + 1] := by
+  have h6 : (decode w).op = 15 ∨ (decode w).op = 16 ∨ (decode w).op = 17 ∨ (decode w).op = 18 ∨ (decode w).op = 19 ∨
+      (decode w).op = 20 := by omega
+  rcases h6 with hop | hop | hop | hop | hop | hop <;>
+    simp only [step, fetch, hw, hop, rkValue_ok hb, rkValue_ok hc, bind, Except.bind, pure, Except.pure]
+theorem hyg_arith (hop : 15 ≤ (decode w).op ∧ (decode w).op ≤ 20) (ha : (decode w).a < p.numRegs)
+    (hb : RKGood p (decode w).b) (hc : RKGood p (decode w).c) : hyg p pc = true := by
+  have h6 : (decode w).op = 15 ∨ (decode w).op = 16 ∨ (decode w).op = 17 ∨ (decode w).op = 18 ∨ (decode w).op = 19 ∨
+      (decode w).op = 20 := by omega
+  rcases h6 with hop | hop | hop | hop | hop | hop <;>
+    simp only [hyg, hw, hop, ha, rkOk_ok hb, rkOk_ok hc, decide_true, Bool.and_self]
+
+/-- UNM / LEN: vm.go reads the operand through rkValue; the compiler always passes a register -/
+theorem step_unm_len (hop : (decode w).op = 21 ∨ (decode w).op = 23) (hb : (decode w).b < p.numRegs) (hb2 : (decode w).b < 256) :
+    step p pc = .ok [pc + 1] := by
+  have hg : RKGood p (decode w).b := Or.inl ⟨hb2, hb⟩
+  rcases hop with hop | hop <;>
+    simp only [step, fetch, hw, hop, rkValue_ok hg, bind, Except.bind, pure, Except.pure]
+theorem hyg_unm_len (hop : (decode w).op = 21 ∨ (decode w).op = 23) (ha : (decode w).a < p.numRegs) (hb : (decode w).b < p.numRegs) :
+    hyg p pc = true := by
+  rcases hop with hop | hop <;> simp only [hyg, hw, hop, ha, hb, and_self, decide_true]
+
+theorem step_concat (hop : (decode w).op = 24) (hc : (decode w).c < p.numRegs) : step p pc = .ok [pc + 1] := by
+  simp only [step, fetch, hw, hop, rd, chk, hc, decide_true, bind, Except.bind, pure, Except.pure, if_true]
+theorem hyg_concat (hop : (decode w).op = 24) (ha : (decode w).a < p.numRegs) (hbc : (decode w).b ≤ (decode w).c)
+    (hc : (decode w).c < p.numRegs) : hyg p pc = true := by
+  simp only [hyg, hw, hop, ha, hbc, hc, and_self, decide_true]
+
 theorem step_jmp (hop : (decode w).op = 25) (hnn : 0 ≤ (pc : Int) + 1 + (decode w).sbx) :
     step p pc = .ok [((pc : Int) + 1 + (decode w).sbx).toNat] := by
   have : ¬ ((pc : Int) + 1 + (decode w).sbx < 0) := by omega
